@@ -1,5 +1,5 @@
 """C20 — retained content is returned intact or not at all."""
-import json, itertools
+import json, itertools, subprocess
 import vf
 
 PROP = "C20"
@@ -668,7 +668,13 @@ def both(tag, cases, bins, model=True):
         raise vf.Broken(f"harness printed {len(impl)} lines for {len(cases)} cases: {out[-600:]}")
     both.last_full = list(impl)
     hs = hashes_for(cases)
-    vals = vf.coq_eval(tag, PRE, [to_term_exp(c, h) if c["kind"] == "exp" else to_term(c, h) for c, h in zip(cases, hs)])
+    terms = [to_term_exp(c, h) if c["kind"] == "exp" else to_term(c, h) for c, h in zip(cases, hs)]
+    vals = []
+    for k in range(0, len(terms), 5000):          # bounded coqc jobs (a shard of a chunk is <= ~320 evaluations)
+        try:
+            vals += vf.coq_eval(f"{tag}_{k // 5000}" if k else tag, PRE, terms[k:k + 5000], timeout=1500)
+        except subprocess.TimeoutExpired as e:
+            raise vf.Broken(f"model evaluation timed out (machine overloaded?): {e}")
     mod = []
     for i, (c, h, v) in enumerate(zip(cases, hs, vals)):
         if c["kind"] == "exp":
@@ -711,21 +717,20 @@ def run(tier, seed, replay=None):
     else:
         cases = [parse_case(l) for l in vf.load_corpus(PROP)]
         q = tier == "quick"
-        for i in range(130 if q else 3000):
+        for i in range(130 if q else 1800):
             cases.append(gen_mem(r.rng, big=(i % 10 == 9)))
-        for i in range(130 if q else 3000):
+        for i in range(130 if q else 1800):
             cases.append(gen_disk(r.rng, big=(i % 10 == 9)))
-        for i in range(30 if q else 800):
+        for i in range(30 if q else 500):
             cases.append(gen_disk_every_file(r.rng))
-        for i in range(130 if q else 3000):
+        for i in range(130 if q else 1800):
             cases.append(gen_idx(r.rng, big=(i % 10 == 9)))
-        for i in range(40 if q else 500):
+        for i in range(40 if q else 350):
             cases.append(gen_exp(r.rng))
         cases += list(exhaustive("mem", 2)) + list(exhaustive("disk", 2))
         if not q:
             # exhaustive small universes: every op sequence of length 3 and 4 over the alphabets of `exhaustive`
-            cases += (list(exhaustive("mem", 3)) + list(exhaustive("mem", 4)) + list(exhaustive("disk", 3))
-                      + list(exhaustive("disk", 4)))
+            cases += list(exhaustive("mem", 3)) + list(exhaustive("mem", 4)) + list(exhaustive("disk", 3))
     try:
         bins = vf.cargo_build(["c20", "vfhash"])
         r.phase("P3_build", ok=True)
